@@ -228,6 +228,41 @@ func c10Generate(thorough bool) []c10Case {
 		add("unicode-space", "CREATE TABLE t (a, b)", "CREATE INDEX i1 ON t (b"+sp+"DESC)")
 		add("unicode-space", "CREATE TABLE t (a, b)", "CREATE INDEX i1 ON t (b)"+sp+"WHERE a > 1")
 	}
+	// F8: comments. A comment between two tokens changes nothing, a token inside a comment is not there. The
+	// forms include the corner cases of SQLite's tokenizer: /*/ only OPENS a comment, an unterminated /* runs
+	// to the end, -- ends at the newline, quotes inside comments are not quotes. (A reader that rejects every
+	// definition with a comment satisfies this family trivially.)
+	for _, base := range [][]string{
+		{"CREATE", "TABLE", "t", "(", "a", "INTEGER", "PRIMARY KEY", ",", "b", "TEXT", "COLLATE NOCASE", "UNIQUE", ",", "c", ")"},
+		{"CREATE", "TABLE", "t", "(", "a", ",", "b", "TEXT", ",", "PRIMARY KEY", "(", "b", "DESC", ",", "a", ")", ")", "WITHOUT ROWID"},
+		{"CREATE", "TABLE", "t", "(", "a", "INTEGER", ",", "b", "UNIQUE", ",", "UNIQUE", "(", "a", "COLLATE RTRIM", "DESC", ")", ")"},
+	} {
+		join := func(toks []string) string { return strings.Join(toks, " ") }
+		for g := 1; g <= len(base); g++ {
+			for _, cm := range []string{"/* c */", "/**/", "/*/ x /*/", "-- c\n", "/* ' */", "/* \" -- */", "--'\n", "/***/", "/* */ /* */"} {
+				toks := append(append(append([]string{}, base[:g]...), cm), base[g:]...)
+				add("comments", join(toks))
+			}
+			if g == len(base) {
+				add("comments", join(base)+" /* open", join(base)+" --", join(base)+"/*/")
+			}
+		}
+		// tokens i..j commented out (SQLite decides whether what is left is a definition)
+		for i := 4; i < len(base); i++ {
+			for j := i; j < len(base) && j < i+3; j++ {
+				for _, pair := range [][2]string{{"/*", "*/"}, {"/*/", "/*/"}, {"/*/", "*/"}, {"--", "\n"}} {
+					toks := append([]string{}, base[:i]...)
+					toks = append(toks, pair[0]+" "+join(base[i:j+1])+" "+pair[1])
+					toks = append(toks, base[j+1:]...)
+					add("comments", join(toks))
+				}
+			}
+		}
+	}
+	for _, cm := range []string{"/* c */", "/*/ DESC /*/", "-- DESC\n", "/*/ COLLATE NOCASE */"} {
+		add("comments", "CREATE TABLE t (a, b)", "CREATE INDEX i1 ON t (b "+cm+" , a)")
+		add("comments", "CREATE TABLE t (a, b)", "CREATE UNIQUE INDEX i1 ON t "+cm+" (b "+cm+" DESC)")
+	}
 	// F7: table options after the closing parenthesis (STRICT exists since 3.37; a definition sqlittle cannot
 	// interpret must be rejected, not read as if the options were not there)
 	for _, opt := range []string{" STRICT", " WITHOUT ROWID, STRICT", " STRICT, WITHOUT ROWID", " strict , without rowid"} {
@@ -382,7 +417,7 @@ func c10Little(s *sdb.Schema) *c10View {
 }
 
 func runC10(r *ev.Run) {
-	r.Rule = "grammar-directed enumeration of CREATE TABLE statements (1-3 columns; types {none, INTEGER, integer, INT, TEXT, INTEGER(5)}; every ordered list of <=2 (3 thorough) column constraints from 15; 0-2 table constraints from 20 incl. duplicate/overlapping/re-ordered/collated/DESC ones and CONSTRAINT names; WITHOUT ROWID; 7 identifier spellings incl. the string literal SQLite accepts where a name is expected; identifiers, type names and keywords that differ only in non-ASCII case - SQLite folds ASCII only) and CREATE INDEX statements (UNIQUE, column permutations, per-column COLLATE/DESC, partial, expression columns, one or two indexes) on 5 base tables; the index families and a quarter of the DESC-bearing table definitions once more in a legacy-format database (schema format 3: DESC is ignored); only statements real SQLite accepts are judged; oracle: PRAGMA table_xinfo/index_list/index_xinfo + a behavioural rowid-alias probe + reading the probe row back, through the table and through every listed index. A definition sqlittle rejects is fine; an explicit index it leaves out is fine; every index it reports must match SQLite's index of that name; every automatic index must be reported. non-trivial = statements with at least one index or a primary key"
+	r.Rule = "grammar-directed enumeration of CREATE TABLE statements (1-3 columns; types {none, INTEGER, integer, INT, TEXT, INTEGER(5)}; every ordered list of <=2 (3 thorough) column constraints from 15; 0-2 table constraints from 20 incl. duplicate/overlapping/re-ordered/collated/DESC ones and CONSTRAINT names; WITHOUT ROWID; 7 identifier spellings incl. the string literal SQLite accepts where a name is expected; identifiers, type names and keywords that differ only in non-ASCII case - SQLite folds ASCII only) and CREATE INDEX statements (UNIQUE, column permutations, per-column COLLATE/DESC, partial, expression columns, one or two indexes) on 5 base tables; comments between any two tokens and around any 1-3 tokens in 9 forms (/*/ opens a comment, open comments, -- to the newline, quotes inside comments); the index families and a quarter of the DESC-bearing table definitions once more in a legacy-format database (schema format 3: DESC is ignored); only statements real SQLite accepts are judged; oracle: PRAGMA table_xinfo/index_list/index_xinfo + a behavioural rowid-alias probe + reading the probe row back, through the table and through every listed index. A definition sqlittle rejects is fine; an explicit index it leaves out is fine; every index it reports must match SQLite's index of that name; every automatic index must be reported. non-trivial = statements with at least one index or a primary key"
 	cases := c10Generate(r.Thorough())
 	r.Set("generated_statements", len(cases))
 	// one SQLite connection per worker, reused (the table is dropped between cases)
